@@ -29,7 +29,10 @@ RULE = (
     "vs the same configuration after reset(seed=s). (c) instance isolation: two environments with different options "
     "(nmne_config, pcap/sys-log saving, thresholds, durations) under a generated interleaving of construct/step/reset "
     "calls; X's trajectory must equal X's solo trajectory (global Python/NumPy RNG and harness entropy are saved and "
-    "restored around every call on the other instance). Non-trivial = H changed the state in >=3 top-level subsystems "
+    "restored around every call on the other instance); (d) the same (scenario, reset(seed), actions) in a pristine "
+    "interpreter vs in the worker process after ANOTHER environment with different process-wide options (NMNE capture, "
+    "log saving, a shipped scenario) was built and used: state after reset, observations, rewards, agent histories and "
+    "per-step state must be equal. Reset seeds include 0 in a fifth of the cases. Non-trivial = H changed the state in >=3 top-level subsystems "
     "or an interleaving with >=2 switches between instances with differing options; distinct by case hash."
 )
 ASSUMPTIONS = [
@@ -412,7 +415,7 @@ def run_instances(case: Dict, res: CaseResult):
     res.nontrivial = switches >= 2 and differing
 
 
-def run_pristine_batch(cases: List[Dict], tag: str) -> List[Dict]:
+def run_pristine_batch(cases: List[Dict], tag: str, rvc: bool = True) -> List[Dict]:
     """One fresh interpreter per case (run in parallel): returns traj_worker results."""
     import os
     import subprocess
@@ -426,7 +429,8 @@ def run_pristine_batch(cases: List[Dict], tag: str) -> List[Dict]:
     for i, c in enumerate(cases):
         bp, op = os.path.join(work, f"b{i}.json"), os.path.join(work, f"o{i}.json")
         with open(bp, "w") as f:
-            json.dump({"variant": {"label": "pristine", "entropy": {}}, "cases": [dict(c, rvc=True)]}, f)
+            json.dump({"variant": dict(POLLUTED_VARIANT) if not rvc else {"label": "pristine", "entropy": {}},
+                       "cases": [dict(c, rvc=True) if rvc else c]}, f)
         env = dict(os.environ, PYTHONHASHSEED="0", VERIF_CHILD_HOME=os.path.join(work, f"home{i}"))
         procs.append((subprocess.Popen([sys.executable, "-W", "ignore", "-m", "vlib.traj_worker", bp, op], cwd=VERIF, env=env,
                                        stdout=subprocess.DEVNULL, stderr=subprocess.PIPE), op))
@@ -470,9 +474,78 @@ def _first_obs_diff(a, b):
     return "?"
 
 
+POLLUTED_VARIANT = {"label": "polluted", "entropy": {}, "state_digest": True, "state_full0": True}
+
+
+def pollute(case: Dict) -> None:
+    """Give this process a history: build (and briefly use) another environment with different process-wide options."""
+    try:
+        if case.get("polluter_path"):
+            from ..envdrive import load_shipped
+
+            cfg = load_shipped(case["polluter_path"])
+            meta = None
+        else:
+            cfg, meta = case_cfg({"src": "gen", "spec": case["polluter"], "ops": []})
+            for k, v in case.get("polluter_io", {}).items():
+                cfg["io_settings"][k] = v
+        env = build_env(cfg)
+        drive(env, case.get("polluter_ops", []), meta, None, "polluter")
+        env.close()
+    except Exception:
+        pass  # the polluter's own failures are not the business of the environment under test
+
+
+def judge_polluted(case: Dict, ref: Dict) -> CaseResult:
+    """The same (scenario, reset(seed), actions) in a pristine interpreter (ref) and in this process after a polluter."""
+    from ..traj_worker import run_one
+    from .c03 import diff_episode
+
+    res = CaseResult()
+    res.label("mode:after_other_environment")
+    pollute(case)
+    mine = run_one({k: v for k, v in case.items() if k != "rvc"}, dict(POLLUTED_VARIANT))
+    if ref.get("error") or mine.get("error"):
+        ea, eb = ref.get("error"), mine.get("error")
+        if (ea is None) != (eb is None) or ea["sig"] != eb["sig"]:
+            res.violate(f"instance-leak:after-other-env:exception:{(eb or ea)['sig']}",
+                        f"pristine interpreter: {ea and ea['msg']}; after another environment in this process: {eb and eb['msg']}")
+        else:
+            res.label("both_raised")
+        return res
+    for k, (a, b) in enumerate(zip(ref["episodes"], mine["episodes"])):
+        if a.get("state0") != b.get("state0"):
+            paths = state_diff_paths(a.get("state_full0"), b.get("state_full0"))
+            key = _leaf_key(paths[0].split(":")[0]) if paths else "?"
+            res.violate(f"instance-leak:after-other-env:state-after-reset:{key}",
+                        f"episode {k}: simulation state right after reset differs between a pristine interpreter and a process that "
+                        f"built another environment before: {paths}")
+            break
+        d = diff_episode(a, b)
+        if d is None:
+            for i, (s, t) in enumerate(zip(a["steps"], b["steps"])):
+                if s.get("state") != t.get("state"):
+                    d = ("state", f"step {i}: normalised simulation state differs")
+                    break
+        if d:
+            key = d[0]
+            if key in ("first-obs", "obs"):
+                key = "obs:" + str(obs_diff_key(a.get("first_obs"), b.get("first_obs")) if key == "first-obs" else _first_obs_diff(a, b))
+            res.violate(f"instance-leak:after-other-env:{key}",
+                        f"episode {k}: pristine interpreter vs after another environment in this process: {d[1]}")
+            break
+    px = case["spec"].get("nmne")
+    py = (case.get("polluter") or {}).get("nmne", True)
+    res.label(f"x_nmne:{px}", f"polluter_nmne:{py}" if not case.get("polluter_path") else "polluter:shipped")
+    res.nontrivial = px != py and sum(len(e["steps"]) for e in ref["episodes"]) >= 2
+    return res
+
+
 def run_case(case: Dict) -> CaseResult:
     if case.get("mode") == "pristine":
         return judge_pristine(case, run_pristine_batch([case], "replay")[0])
+    if case.get("mode") == "polluted":
+        return judge_polluted(case, run_pristine_batch([case], "replay", rvc=False)[0])
     res = CaseResult()
     mode = case.get("mode", "episode")
     if mode == "episode":
@@ -486,6 +559,39 @@ def run_case(case: Dict) -> CaseResult:
     return res
 
 
+# reset seeds: 0 is a valid seed and a classic truthiness trap, so it gets a fifth of the draws
+SEEDS = st.tuples(st.integers(0, 4), st.integers(0, 500), st.integers(0, 2 ** 32 - 2)).map(
+    lambda t: 0 if t[0] == 0 else (t[1] if t[0] < 4 else t[2]))
+
+
+@st.composite
+def polluted_case(draw, shipped: List[str]):
+    from .. import gen_scenario
+    from ..envdrive import CATS
+
+    c = draw(gen_case_strategy(max_ops=10))
+    sp = c["spec"]
+    sp["obs"]["include_nmne"] = True
+    sp["obs"]["flatten"] = False
+    sp["nmne"] = draw(st.sampled_from([None, None, True, False]))
+    s = draw(SEEDS)
+    A = [o for o in c["ops"] if o[0] != "reset"]
+    cut = draw(st.integers(0, len(A)))
+    c["ops"] = [["reset", s]] + A[:cut] + [["reset", s]] + A[cut:]
+    c["seed"] = s
+    if shipped and draw(st.integers(0, 3)) == 0:
+        c["polluter_path"] = draw(st.sampled_from(shipped))
+        c["polluter_ops"] = [["step", draw(st.integers(0, 10 ** 6))] for _ in range(draw(st.integers(0, 4)))]
+    else:
+        py = draw(gen_scenario.spec_strategy())
+        py["nmne"] = draw(st.sampled_from([True, True, False, None])) if sp["nmne"] is None else draw(st.sampled_from([True, False, None]))
+        c["polluter"] = py
+        c["polluter_io"] = draw(st.sampled_from([{}, {"save_pcap_logs": True}, {"save_sys_logs": True}]))
+        c["polluter_ops"] = [["cat", draw(st.sampled_from(CATS)), draw(st.integers(0, 200))] for _ in range(draw(st.integers(0, 5)))]
+    c["mode"] = "polluted"
+    return c
+
+
 @st.composite
 def episode_case(draw, shipped: Optional[List[str]] = None):
     if shipped:
@@ -496,7 +602,7 @@ def episode_case(draw, shipped: Optional[List[str]] = None):
         hist = draw(ops_strategy(30, gen=True))
     c["history"] = hist
     c["ops"] = [o for o in c["ops"] if o[0] != "reset"]
-    c["seed"] = draw(st.integers(0, 500))
+    c["seed"] = draw(SEEDS)
     c["mode"] = "episode"
     return c
 
@@ -513,7 +619,7 @@ def folder_episode_case(draw):
 
     hist = draw(st.lists(st.tuples(st.integers(0, 9), st.integers(0, 10 ** 6)).map(mk), min_size=3, max_size=24))
     A = [["step", draw(st.integers(0, 10 ** 6))] for _ in range(draw(st.integers(1, 8)))]
-    return {"src": "folder", "path": path, "history": hist, "ops": A, "seed": draw(st.integers(0, 500)), "mode": "folder_episode"}
+    return {"src": "folder", "path": path, "history": hist, "ops": A, "seed": draw(SEEDS), "mode": "folder_episode"}
 
 
 @st.composite
@@ -531,13 +637,13 @@ def genfolder_episode_case(draw):
     hist = draw(st.lists(st.tuples(st.integers(0, 9), st.integers(0, 10 ** 6), st.sampled_from(CATS), st.integers(0, 200)).map(mk),
                          min_size=3, max_size=20))
     return {"src": "genfolder", "spec": c["spec"], "n_variants": draw(st.integers(1, 3)), "history": hist,
-            "ops": [o for o in c["ops"] if o[0] != "reset"], "seed": draw(st.integers(0, 500)), "mode": "folder_episode"}
+            "ops": [o for o in c["ops"] if o[0] != "reset"], "seed": draw(SEEDS), "mode": "folder_episode"}
 
 
 @st.composite
 def rvc_case(draw):
     c = draw(gen_case_strategy(max_ops=10))
-    c["seed"] = draw(st.integers(0, 500))
+    c["seed"] = draw(SEEDS)
     c["mode"] = "reset_vs_construct"
     return c
 
@@ -583,7 +689,7 @@ def worker(ctx: Ctx):
         c = draw(gen_case_strategy(max_ops=8, allow_off=False))
         c["spec"]["obs"]["links"] = True
         c["spec"]["obs"]["flatten"] = False
-        c["seed"] = draw(st.integers(0, 500))
+        c["seed"] = draw(SEEDS)
         c["mode"] = "pristine"
         return c
 
@@ -592,3 +698,10 @@ def worker(ctx: Ctx):
         part = cases[i:i + 4]
         for case, out in zip(part, run_pristine_batch(part, f"w{ctx.idx}-{i}")):
             ctx.record(case, judge_pristine(case, out))
+    # the same episode in a pristine interpreter vs in this (by now well used) process after yet another environment
+    sh = [p for p in paths if "data_manipulation" in p or "multi_lan" in p or "basic" in p.lower()]
+    cases = collect(polluted_case(sh), 3 if q else 32, ctx.wseed * 10 + 9)
+    for i in range(0, len(cases), 4):
+        part = cases[i:i + 4]
+        for case, out in zip(part, run_pristine_batch(part, f"p{ctx.idx}-{i}", rvc=False)):
+            ctx.record(case, judge_polluted(case, out))
